@@ -792,31 +792,71 @@ func (r *runner) runAll(scs []*Scenario) []*DeclResult {
 		}
 	}
 	sort.Strings(ids)
-	var mb strings.Builder
-	mb.WriteString("package main\n\nimport (\n\t\"bufio\"\n\t\"os\"\n")
-	for _, id := range ids {
-		fmt.Fprintf(&mb, "\tp%s \"scen/p%s\"\n", id, id)
-	}
-	mb.WriteString(")\n\nfunc main() {\n\tw := bufio.NewWriterSize(os.Stdout, 1<<20)\n\tdefer w.Flush()\n")
-	for _, id := range ids {
-		fmt.Fprintf(&mb, "\tp%s.Run(w)\n", id)
-	}
-	mb.WriteString("}\n")
-	_ = os.MkdirAll(filepath.Join(r.mod(), "cmd", "drv"), 0o755)
-	_ = os.WriteFile(filepath.Join(r.mod(), "cmd", "drv", "main.go"), []byte(mb.String()), 0o644)
-	bo, code := r.cmd(r.mod(), "go", "build", "-o", filepath.Join(r.work, "drv"), "./cmd/drv")
+	// one driver binary per chunk of packages (a single binary over hundreds of large packages exceeds the linker's limits)
 	obs := map[string]string{}
 	extra := map[string]string{}
-	if code != 0 {
-		fmt.Fprintln(os.Stderr, "driver build failed:", tail(bo, 3000))
-	} else {
-		c := exec.Command(filepath.Join(r.work, "drv"))
-		c.Env = goEnv
-		o, err := c.Output()
-		if err != nil {
-			fmt.Fprintln(os.Stderr, "driver run failed:", err)
+	var chunks [][]string
+	size := 0
+	for _, id := range ids {
+		n := 0
+		if fi, err := os.Stat(filepath.Join(r.mod(), "p"+id, "zz_run.go")); err == nil {
+			n = int(fi.Size())
 		}
-		for _, line := range strings.Split(string(o), "\n") {
+		if len(chunks) == 0 || size+n > 6<<20 || len(chunks[len(chunks)-1]) >= 40 {
+			chunks = append(chunks, nil)
+			size = 0
+		}
+		chunks[len(chunks)-1] = append(chunks[len(chunks)-1], id)
+		size += n
+	}
+	type chunkOut struct {
+		out string
+		err string
+	}
+	outs := make([]chunkOut, len(chunks))
+	for ci, chunk := range chunks {
+		wg.Add(1)
+		go func(ci int, chunk []string) {
+			defer wg.Done()
+			sem <- struct{}{}
+			defer func() { <-sem }()
+			var mb strings.Builder
+			mb.WriteString("package main\n\nimport (\n\t\"bufio\"\n\t\"os\"\n")
+			for _, id := range chunk {
+				fmt.Fprintf(&mb, "\tp%s \"scen/p%s\"\n", id, id)
+			}
+			mb.WriteString(")\n\nfunc main() {\n\tw := bufio.NewWriterSize(os.Stdout, 1<<20)\n\tdefer w.Flush()\n")
+			for _, id := range chunk {
+				fmt.Fprintf(&mb, "\tp%s.Run(w)\n", id)
+			}
+			mb.WriteString("}\n")
+			name := fmt.Sprintf("drv%03d", ci)
+			_ = os.MkdirAll(filepath.Join(r.mod(), "cmd", name), 0o755)
+			_ = os.WriteFile(filepath.Join(r.mod(), "cmd", name, "main.go"), []byte(mb.String()), 0o644)
+			bo, code := r.cmd(r.mod(), "go", "build", "-o", filepath.Join(r.work, name), "./cmd/"+name)
+			if code != 0 {
+				outs[ci].err = "driver build failed: " + tail(bo, 3000)
+				return
+			}
+			c := exec.Command(filepath.Join(r.work, name))
+			c.Env = goEnv
+			o, err := c.Output()
+			if err != nil {
+				outs[ci].err = "driver run failed: " + err.Error()
+				return
+			}
+			outs[ci].out = string(o)
+			_ = os.Remove(filepath.Join(r.work, name))
+		}(ci, chunk)
+	}
+	wg.Wait()
+	for _, co := range outs {
+		if co.err != "" {
+			// the observation side is broken: no verdict may be derived from missing output
+			fmt.Fprintln(os.Stderr, co.err)
+			os.Exit(4)
+		}
+		for _, line := range strings.Split(co.out, "\n") {
 			parts := strings.SplitN(line, "\t", 5)
 			if len(parts) == 5 {
 				obs[parts[0]+"/"+parts[1]+"/"+parts[2]] = parts[3]
